@@ -2,6 +2,15 @@
 
 package symbolz
 
+import (
+	"io"
+	"strconv"
+	"strings"
+
+	"github.com/google/pprof/internal/plugin"
+	"github.com/google/pprof/profile"
+)
+
 func init() {
 	vRegister("VerifC12Adjust", VerifC12Adjust)
 }
@@ -28,4 +37,94 @@ func VerifC12Adjust() {
 			vAssert(got == addr-mag, "C12.adjust.sum-: adjusted address is not addr-|offset|")
 		}
 	}
+}
+
+func init() { vRegister("VerifC12Symbolz", VerifC12Symbolz) }
+
+type vSzUI struct{}
+
+func (vSzUI) ReadLine(prompt string) (string, error)       { return "", io.EOF }
+func (vSzUI) Print(args ...interface{})                    {}
+func (vSzUI) PrintErr(args ...interface{})                 {}
+func (vSzUI) IsTerminal() bool                             { return false }
+func (vSzUI) WantBrowser() bool                            { return false }
+func (vSzUI) SetAutoComplete(complete func(string) string) {}
+
+// VerifC12Symbolz: remote symbolization only adds names. A profile merged
+// from two processes: mapping 1 is already symbolized, mapping 2 is not and
+// has a location at the same address as one of mapping 1; the symbol service
+// answers every address asked (and, optionally, one it was not asked). After
+// Symbolize: locations of the symbolized mapping keep their lines (without
+// force), every asked location of mapping 2 carries the answered name, no
+// sample, location, mapping or value changes, the profile stays valid.
+func VerifC12Symbolz() {
+	force := vBool("force")
+	m1 := &profile.Mapping{ID: 1, Start: 0x1000, Limit: 0x5000, File: "bin1", HasFunctions: true}
+	m2 := &profile.Mapping{ID: 2, Start: 0x1000, Limit: 0x5000, File: "bin2"}
+	forig := &profile.Function{ID: uint64(1 + vChoice("fid", 3)), Name: "orig", SystemName: "orig"}
+	l1 := &profile.Location{ID: 1, Mapping: m1, Address: 0x1100, Line: []profile.Line{{Function: forig, Line: 7}}}
+	l2 := &profile.Location{ID: 2, Mapping: m2, Address: 0x1100}
+	l3 := &profile.Location{ID: 3, Mapping: m2, Address: 0x1200}
+	l4 := &profile.Location{ID: 4, Mapping: m1, Address: 0x1200}
+	if vChoice("l4lines", 2) == 1 {
+		l4.Line = []profile.Line{{Function: forig, Line: 9}}
+	}
+	p := &profile.Profile{
+		SampleType: []*profile.ValueType{{Type: "samples", Unit: "count"}},
+		Mapping:    []*profile.Mapping{m1, m2}, Function: []*profile.Function{forig},
+		Location: []*profile.Location{l1, l2, l3, l4},
+		Sample: []*profile.Sample{
+			{Location: []*profile.Location{l2, l1}, Value: []int64{3}},
+			{Location: []*profile.Location{l3, l4}, Value: []int64{4}},
+		},
+	}
+	// the mapping was normalised by a merge: the source saw it at another start
+	srcStart := []uint64{0x1000, 0x3000, 0x0}[vChoice("srcstart", 3)]
+	delta := int64(srcStart) - int64(m2.Start)
+	sources := plugin.MappingSources{"bin2": {{Source: "http://host/pprof/heap", Start: srcStart}}}
+	if force {
+		sources["bin1"] = []struct {
+			Source string
+			Start  uint64
+		}{{Source: "http://host/pprof/heap", Start: 0x1000}}
+	}
+	extra := vChoice("extra", 2) == 1
+	var asked []string
+	syms := func(source, query string) ([]byte, error) {
+		var out string
+		for _, a := range strings.Split(query, "+") {
+			asked = append(asked, a)
+			out += a + " sym_" + a + "\n"
+		}
+		if extra {
+			out += "0x9300 unasked\n" // an address nobody asked about (large enough to be re-based)
+		}
+		return []byte(out), nil
+	}
+	err := Symbolize(p, force, sources, syms, vSzUI{})
+	vReach("C12.symbolz:returned")
+	vAssert(err == nil, "C12.symbolz.error: symbolization failed")
+	vAssert(p.CheckValid() == nil, "C12.symbolz.valid: profile invalid after remote symbolization")
+	vAssert(len(p.Sample) == 2 && len(p.Location) == 4 && len(p.Mapping) == 2, "C12.symbolz.shape: samples, locations or mappings were added or dropped")
+	vAssert(p.Sample[0].Value[0] == 3 && p.Sample[1].Value[0] == 4 && p.Sample[0].Location[0] == l2 && p.Sample[0].Location[1] == l1, "C12.symbolz.samples: sample values or stacks changed")
+	if !force {
+		ok := len(l1.Line) == 1 && l1.Line[0].Function == forig && l1.Line[0].Line == 7
+		vAssert(ok, "C12.symbolz.kept: a location of an already symbolized mapping lost or changed its symbol data")
+		if len(l4.Line) == 1 {
+			vAssert(l4.Line[0].Function == forig && l4.Line[0].Line == 9, "C12.symbolz.kept: a location of an already symbolized mapping lost or changed its symbol data")
+		} else {
+			vAssert(len(l4.Line) == 0, "C12.symbolz.kept: a location of an already symbolized mapping was given symbol data from another mapping's answers")
+		}
+	}
+	// mapping 2: both locations were asked (at the source's addresses) and named
+	name := func(a uint64) string { return "sym_0x" + strconv.FormatUint(uint64(int64(a)+delta), 16) }
+	for _, l := range []*profile.Location{l2, l3} {
+		ok := len(l.Line) == 1 && l.Line[0].Function != nil
+		if ok {
+			ok = l.Line[0].Function.Name == name(l.Address)
+		}
+		vAssert(ok, "C12.symbolz.named: an unsymbolized location did not get the name the service answered for its address")
+	}
+	vAssert(m2.HasFunctions, "C12.symbolz.flag: the symbolized mapping is not marked as having functions")
+	vObserve(len(p.Function), len(asked))
 }
